@@ -159,14 +159,28 @@ type arWalk struct {
 	loadErr bool
 }
 
+// names2 is the outcome without the call count (which may differ by schedule).
+func (w arWalk) names2() string {
+	return fmt.Sprintf("%v %v end=%s loadErr=%v", w.names, w.sizes, w.end, w.loadErr)
+}
+
 func (w arWalk) String() string {
 	return fmt.Sprintf("%v %v end=%s loadErr=%v", w.names, w.sizes, w.end, w.loadErr)
 }
 
 // walkAr iterates the archive on the disk and checks the per-member clauses.
 func walkAr(r *rt.Run, img []byte, disk io.ReaderAt, label string) (w arWalk, task *rt.Task) {
+	task = r.Solo("iterator", walkBody(r, img, disk, label, &w))
+	return
+}
+
+// walkBody is the iteration itself, usable as a solo task or as one of several
+// concurrent tasks.
+func walkBody(r *rt.Run, img []byte, disk io.ReaderAt, label string, wp *arWalk) func() {
 	limit := len(img)/60 + 1
-	task = r.Solo("iterator", func() {
+	return func() {
+		w := arWalk{}
+		defer func() { *wp = w }()
 		ar, err := deb.LoadAr(disk)
 		if err != nil {
 			w.loadErr = true
@@ -216,8 +230,7 @@ func walkAr(r *rt.Run, img []byte, disk io.ReaderAt, label string) (w arWalk, ta
 				r.Violate("C15/reader-delivers-wrong-length", "Next/huge", "[%s] member %q: Size=%d exceeds the %d-byte input", label, e.Name, e.Size, len(img))
 			}
 		}
-	})
-	return
+	}
 }
 
 type debOutcome struct {
@@ -271,6 +284,10 @@ func runC15(r *rt.Run, tier string) {
 	r.StepBudget = int64(1000 * (len(bad) + 100))
 
 	// the ar iterator, twice (determinism)
+	beyondErr := t.Bool(1, 4, "c15.beyonderr")
+	if beyondErr {
+		r.Probe("reader-fails-beyond-the-end-with-a-non-EOF-error")
+	}
 	seqFlavour := t.Bool(1, 3, "c15.seqflavour")
 	if seqFlavour {
 		r.Probe("reader-with-sequential-state")
@@ -279,6 +296,7 @@ func runC15(r *rt.Run, tier string) {
 	for i := 0; i < 2; i++ {
 		disk := simdisk.New(r, "archive", bad)
 		disk.DrawProfile()
+		disk.BeyondEndErr = beyondErr
 		disk.MaxCalls = 4*len(bad) + 4000
 		var ra io.ReaderAt = disk
 		if seqFlavour {
@@ -309,6 +327,39 @@ func runC15(r *rt.Run, tier string) {
 	}
 	if walks[0].String() != walks[1].String() {
 		r.Violate("C15/nondeterministic-outcome", "ar", "[%s] iterating the same bytes twice gave %s and then %s", what, walks[0], walks[1])
+	}
+	// two archives iterated by two concurrent callers, interleaved at disk reads
+	// and at the buggified loop heads / function entries of the reader: each
+	// must see exactly what it sees alone
+	if target == "ar" && t.Bool(1, 3, "c15.concurrent") {
+		soloIntact, task := walkAr(r, img, simdisk.New(r, "intact", img), "intact")
+		soloBad, task2 := walkAr(r, bad, simdisk.New(r, "bad-solo", bad), what)
+		if task.Panic == nil && !task.Budget && task2.Panic == nil && !task2.Budget && soloBad.end != "limit" {
+			sites := map[int]bool{}
+			sub := t.Sub("c15.sites")
+			for i := 0; i < rt.TotalSites(); i++ {
+				if sub.Intn(3) == 0 {
+					sites[i] = true
+				}
+			}
+			r.SetYieldSites(sites)
+			r.Sticky = t.Draw(2, "sched.sticky")
+			var wa, wb arWalk
+			da, db := simdisk.New(r, "archiveA", bad), simdisk.New(r, "archiveB", img)
+			da.MaxCalls, db.MaxCalls = 4*len(bad)+4000, 4*len(img)+4000
+			ta := r.Go("WA", walkBody(r, bad, da, what+"/concurrent", &wa))
+			tb := r.Go("WB", walkBody(r, img, db, "intact/concurrent", &wb))
+			r.Sched()
+			r.SetYieldSites(nil)
+			r.Probe("two-archives-iterated-concurrently")
+			if ta.Panic != nil || tb.Panic != nil {
+				r.Violate("C15/panic", "ar/concurrent", "panic while two archives were iterated concurrently: %v %v", ta.Panic, tb.Panic)
+				return
+			}
+			if wa.names2() != soloBad.names2() || wb.names2() != soloIntact.names2() {
+				r.Violate("C15/nondeterministic-outcome", "ar/concurrent-callers", "[%s] iterated alone: %s and %s; iterated concurrently with each other: %s and %s", what, soloBad, soloIntact, wa, wb)
+			}
+		}
 	}
 	if walks[0].end == "error" {
 		r.Probe("iteration-ended-in-error")
@@ -360,5 +411,5 @@ func init() {
 		},
 		Assumptions: []string{"inputs are structured corruptions of valid archives and raw bytes drawn from a header-like alphabet; coverage-guided fuzzing (named in the property's quantifier) is a different technique and is not used", "only stored and gzip members are damaged for deb.Load, as the statement excludes the third-party decoders on hostile streams"},
 	})
-	propProbes["C15"] = []string{"reader-with-sequential-state", "iteration-ended-in-error", "iteration-ended-in-eof", "damaged-package-still-loads"}
+	propProbes["C15"] = []string{"two-archives-iterated-concurrently", "reader-fails-beyond-the-end-with-a-non-EOF-error", "reader-with-sequential-state", "iteration-ended-in-error", "iteration-ended-in-eof", "damaged-package-still-loads"}
 }
